@@ -3,6 +3,7 @@
   One query per input line, one answer per output line.
 -/
 import OrxPar.Model.Terminals
+import OrxPar.Model.Logs
 import OrxPar.Model.Spawn
 open OrxPar
 
@@ -167,6 +168,16 @@ def acceptFind (n : Nat) (hitArr : Array Bool) (asg : List (Chunk × Nat)) : Boo
     | none => n
   perThread && (List.range upto).all evaluated
 
+/-- canonical digest of a multiset of closure invocations: `count:Σ h(e) mod 2^64` -/
+def evDigest (l : List Event) : String :=
+  let h (e : Event) : Nat := let a := (e.stage + 1) * 2 ^ 40 + e.arg; (a * a + 12345 * a) % 2 ^ 64
+  s!"{l.length}:{(l.foldl (fun acc e => (acc + h e) % 2 ^ 64) 0)}"
+
+def decEvent (s : String) : Option Event :=
+  match splitOn s ":" with
+  | [a, b] => do let a ← nat? a; let b ← nat? b; pure ⟨a, b⟩
+  | _ => none
+
 def answerRun (fs : List String) : String :=
   match field fs "src", field fs "calls", field fs "term", field fs "cs", field fs "asg" with
   | some src, some calls, some term, some cs, some asg =>
@@ -192,7 +203,9 @@ def answerRun (fs : List String) : String :=
         let _ := isIdx
         -- the model's own sequential stream must agree with the std specification
         let streamOk := Pf.stream.vals == seqVals items ops
-        match decAsg Pf.src.items asg with
+        -- the pipeline whose runner the terminal starts (`for_each` = `map(f).count()`)
+        let Pt := (Pf.forTerminal t).1
+        match decAsg Pt.src.items asg with
         | none => "bad-asg"
         | some asgR =>
           let traced := asg != "-"
@@ -202,9 +215,9 @@ def answerRun (fs : List String) : String :=
               { asg := asgR.map (·.1), order := (List.range csl.length).map (· + 1),
                 cs := fun t => csl.getD (t - 1) 1 }
             else
-              { asg := if Pf.src.items.isEmpty then [] else [⟨1, 0, Pf.src.items⟩], order := [1], cs := fun _ => 2 }
+              { asg := if Pt.src.items.isEmpty then [] else [⟨1, 0, Pt.src.items⟩], order := [1], cs := fun _ => 2 }
           let pred := Pf.term ex t
-          let n := Pf.src.items.length
+          let n := Pt.src.items.length
           let isFind := match t with
             | .find _ | .first | .any _ | .all _ | .findIdx _ | .firstIdx => true
             | _ => false
@@ -227,7 +240,19 @@ def answerRun (fs : List String) : String :=
           let norm (o : Outcome) : Outcome := match keyOf, o with
             | some key, .opt (some v) => .opt (some (key v))
             | _, o => o
-          s!"params={params} eff={eff} spec={encOutcome (norm spec)} pred={encOutcome (norm pred)} acc={acc} stream={streamOk}"
+          -- closure invocations of the whole computation (construction effects + terminal phase);
+          -- a parallel short-circuit terminal needs the observed execution
+          let evd :=
+            if !traced && t.isShortCircuit && !Pf.params.isSequential then "na"
+            else evDigest (steps.1.2 ++ Pf.termLog ex t)
+          -- what an injected panic at one invocation does to the call
+          let pan := match (field fs "panic").bind decEvent with
+            | none => "-"
+            | some pe => match panicPred steps.1.2 Pf t pe with
+              | .yes => "yes"
+              | .maybe => "maybe"
+              | .no => "no"
+          s!"params={params} eff={eff} spec={encOutcome (norm spec)} pred={encOutcome (norm pred)} acc={acc} stream={streamOk} evd={evd} pan={pan}"
       | _, _, _, _ => "bad-run-fields"
     | _ => "bad-src"
   | _, _, _, _, _ => "bad-run"
